@@ -191,6 +191,11 @@ def check_named(obj, step, label, n_of=None, names_of=None):
     if is_exc(n) or is_exc(names) or n != len(names):
         fail(label + '.count_names', 'differs',
              'n_parameters %s, names %s' % (short(n), short(names)), step)
+    if label in ('controller', 'loglik', 'pred', 'logpost', 'ctrlpred') \
+            and len(set(names)) != len(names):
+        # (mechanistic names are distinct, error names carry their output)
+        fail(label + '.unique_names', 'duplicates',
+             'names are not distinct: %s' % names, step)
     again = call(lambda: list((names_of or obj.get_parameter_names)()))
     if is_exc(again) or again != names:
         fail(label + '.count_names', 'second_look',
@@ -390,6 +395,14 @@ def check_cov_names(pm, names, default_names, step, world):
     world.probe('covariate_entry_names_verified')
 
 
+def same_instance(errs, spec):
+    """One error model OBJECT for every output (when they are of one class)."""
+    if spec.get('same_error_instance') and len(errs) > 1 and len(set(
+            e['cls'] for e in spec['errors'])) == 1:
+        return [errs[0]] * len(errs)
+    return errs
+
+
 def toy_n(spec, n_mech):
     """One more parameter when the user keeps one fixed (free count as asked)."""
     return n_mech + 1 if spec.get('mech_wrap') == 'fixed' else n_mech
@@ -421,7 +434,7 @@ def build_ll(spec, n_mech, table_id=None):
     else:
         mech = zoo.build_mech(dict(spec['mech']))
     mech = wrap_mech(mech, spec)
-    errs = [zoo.build_error(e) for e in spec['errors']]
+    errs = same_instance([zoo.build_error(e) for e in spec['errors']], spec)
     times = [list(t) for t in spec['times']]
     obs = [list(o) for o in spec['obs']]
     ll = chi.LogLikelihood(mech, errs, obs, times)
@@ -765,6 +778,7 @@ def run(scenario, world):
             errs = [zoo.build_error(e) for e in llspec['errors']]
             if any(e['cls'] is None for e in llspec['errors']):
                 continue
+            errs = same_instance(errs, llspec)
             ctrl = call(chi.ProblemModellingController, mech, errs)
             if is_exc(ctrl):
                 fail('op.compose_controller', 'raises', '%r\n%s' % (
@@ -1084,6 +1098,8 @@ def _generate(rng, index, tier):
     if rng.random() < 0.25:
         llspec['mech_wrap'] = rng.choice(['never_fixed', 'fix_release',
                                           'fixed'])
+    if n_out > 1 and rng.random() < 0.3:
+        llspec['same_error_instance'] = True
     llspec['times'] = [sorted(rng.sample(grid, rng.randint(1, 4)))
                        for _ in range(n_out)]
     if n_out > 1 and rng.random() < 0.15:
